@@ -202,9 +202,43 @@ def _connected(natoms, bonds):
     return len(seen) == natoms
 
 
+def broken_moltypes(sx):
+    """molecule-type texts in which a solver-chosen type misses a solver-chosen bond - optionally with an angle (and a dihedral)
+    still listed across the gap, as gen_params writes it when the bond link was missing but the angle link applied; returns
+    (texts, names of the types that are not connected by bonds)"""
+    broken = sx.sel("broken_type", ["none", "POL", "DIM", "RNG"])
+    which = sx.sel("missing_bond", [0, 1, 2, 3])
+    bridged = sx.sel("angle_listed_across_the_gap", [False, True])
+    mt = {}
+    disconnected_types = set()
+    for name, res in MOLS.items():
+        natoms = sum(len(a) for _, a in res)
+        bonds = list(RNG_BONDS) if name == "RNG" else [(i, i + 1) for i in range(1, natoms)]
+        gap = None
+        if name == broken and bonds:
+            gap = bonds.pop(min(which, len(bonds) - 1))
+        if not _connected(natoms, bonds):
+            disconnected_types.add(name)
+            if name == "RNG":
+                sx.cover("ring plus detached residue")
+        elif name == "RNG" and name == broken:
+            sx.cover("ring still connected")
+        text = moltype_text(name, res, bonds=bonds)
+        if gap is not None and bridged:
+            third = [x for a, b in bonds for x, y in ((a, b), (b, a)) if y in gap and x not in gap]
+            if third:
+                pivot = [y for a, b in bonds for x, y in ((a, b), (b, a)) if x == third[0] and y in gap][0]
+                other = gap[0] if gap[1] == pivot else gap[1]
+                text += "\n[ angles ]\n%d %d %d 2 120 50" % (third[0], pivot, other)
+                if name in disconnected_types:
+                    sx.cover("gap spanned by an angle only")
+        mt[name] = text
+    return mt, disconnected_types
+
+
 @condition("C10.connectivity_gate",
            anchors=["polyply.src.gen_coords:_check_molecules"],
-           rejects=(), selector_only=True, must_cover=["rejected", "accepted", "ring still connected", "ring plus detached residue"],
+           rejects=(), selector_only=True, must_cover=["rejected", "accepted", "ring still connected", "ring plus detached residue", "gap spanned by an angle only"],
            bounds={"quick": dict(layouts=[[("SOL", 2), ("POL", 1)], [("POL", 1), ("SOL", 2)], [("DIM", 2), ("POL", 1), ("SOL", 1)], [("SOL", 1), ("DIM", 1)],
                                           [("SOL", 1), ("RNG", 1)], [("RNG", 2), ("POL", 1)]]),
                    "thorough": dict(layouts=[[("SOL", 2), ("POL", 1)], [("POL", 1), ("SOL", 2)], [("DIM", 2), ("POL", 1), ("SOL", 1)], [("SOL", 1), ("DIM", 1)],
@@ -214,24 +248,10 @@ def connectivity_gate(sx, B):
     """Real _check_molecules (the gate gen_coords applies before building) on topologies read by the real reader in which a
     solver-chosen molecule type (chains, and a ring with a pendant residue) misses a solver-chosen bond: building is refused iff
     some molecule of the list is disconnected, wherever it stands in [ molecules ] and whatever precedes it - also when the
-    remaining bonds are as many as a connected molecule of that size would need."""
+    remaining bonds are as many as a connected molecule of that size would need, and also when an angle is still listed across
+    the gap (angles do not connect atoms)."""
     layout = sx.sel("layout", B["layouts"])
-    broken = sx.sel("broken_type", ["none", "POL", "DIM", "RNG"])
-    which = sx.sel("missing_bond", [0, 1, 2, 3])
-    mt = {}
-    disconnected_types = set()
-    for name, res in MOLS.items():
-        natoms = sum(len(a) for _, a in res)
-        bonds = list(RNG_BONDS) if name == "RNG" else [(i, i + 1) for i in range(1, natoms)]
-        if name == broken and bonds:
-            bonds.pop(min(which, len(bonds) - 1))
-        if not _connected(natoms, bonds):
-            disconnected_types.add(name)
-            if name == "RNG":
-                sx.cover("ring plus detached residue")
-        elif name == "RNG" and name == broken:
-            sx.cover("ring still connected")
-        mt[name] = moltype_text(name, res, bonds=bonds)
+    mt, disconnected_types = broken_moltypes(sx)
     top = topology_from_text(top_text(mt, layout))
     any_disconnected = any(nm in disconnected_types and cnt > 0 for nm, cnt in layout)
     try:
@@ -242,7 +262,7 @@ def connectivity_gate(sx, B):
         return
     sx.cover("accepted")
     sx.claim(not any_disconnected, "a molecule whose atoms are not all connected is refused",
-             lambda: "layout %r with %s missing bond %d accepted" % (layout, broken, which))
+             lambda: "layout %r accepted although %r lack a bond" % (layout, sorted(disconnected_types)))
 
 
 
